@@ -18,7 +18,7 @@ for pid in ids:
         "evidence_file": "/verif/evidence/%s.json" % pid,
         "replay_cmd_template": "./check replay {path}",
         "engine": "lean4+correspondence",
-        "level_claimed": {"category": p["level"], "text": p["explanation"], "design_ref": "DESIGN.md §8 " + pid},
+        "level_claimed": {"category": p["level"], "text": p["explanation"], "design_ref": "DESIGN.md §7 " + pid},
         "level_note": "; ".join(p.get("assumptions", [])),
         "technique": p.get("technique", "Lean 4 theorems about the executable model + differential correspondence model/code (free-module group, instrumented merlin)"),
     })
@@ -35,7 +35,7 @@ m = {
     "engines": [{"name": "lean4+correspondence", "path": "/verif/check", "serves_properties": [c["property_id"] for c in checks],
                  "kind_free_text": "Lean 4 proofs (lean/Bpp) about an executable model (lean/Model, native driver) + Rust harness driving the real library over a free-module group and Ristretto with an instrumented merlin"}],
     "checks": checks,
-    "not_applicable": [{"property_id": i, "reason": NOT_CLAIMED.get(i, "check not built yet in this round; planned in DESIGN.md §8")} for i in ids if i not in PROPS],
+    "not_applicable": [{"property_id": i, "reason": NOT_CLAIMED.get(i, "check not built yet in this round; planned in DESIGN.md §7")} for i in ids if i not in PROPS],
     "notes": "fix: commits in /repo: e4bc4a5 (C03 chunk loop), 4f759bf (C20 seed copy), 81701bf (C05 promise list length). Known findings: KNOWN_FINDINGS.txt.",
 }
 json.dump(m, open(os.path.join(VERIF, "MANIFEST.json"), "w"), indent=1)
